@@ -135,6 +135,13 @@ func streamC16(r *Rand, n int, o *Out) {
 			in = rr.Pick([]string{"http", "file", "sc"}) + "://h" + strings.Repeat("/", rr.N(3)) + genPath(rr) + rr.Pick([]string{"", "/.", "/..", "//", "//.", "/./", "//../"})
 		case 4:
 			in = rr.Pick(weirdHosts) + genPath(rr) // no scheme: for default-scheme
+		case 6:
+			np := 13 + rr.N(30)
+			parts := make([]string, np)
+			for j := range parts {
+				parts[j] = rr.Pick([]string{"b", "a", "c", "a"}) + "=" + fmt.Sprint(j%7)
+			}
+			in = "http://h/p?" + strings.Join(parts, "&")
 		case 5:
 			in = rr.Pick(specialSchemes) + "://" + rr.Pick([]string{"a\ufffdb", "\ufffd", "a.\ufffd.b", "a\ufffd\ufffdb", "x\ufffd"}) + genPath(rr)
 		}
@@ -169,7 +176,7 @@ func streamC16(r *Rand, n int, o *Out) {
 			}
 		}
 		// conservative extensions
-		for _, no := range neutral {
+		for ni, no := range neutral {
 			if rr.P(50) {
 				continue
 			}
@@ -177,6 +184,20 @@ func streamC16(r *Rand, n int, o *Out) {
 			u, err := mk(no.cfg)
 			if !no.trigger(in, base, du, derr) && !sameResult(u, err, du, derr) {
 				orc.Fail("C16", "not-neutral:"+no.name, "option changed the result of an input that does not contain its trigger", tokOf())
+			}
+			// … also through the setters that use the string encoder (username / password)
+			if ni < 2 && err == nil && derr == nil && rr.P(60) {
+				val := rr.Pick([]string{"j\u00f6rg%40home", "é%41", "a%41é", "%C3%A9%20x", "日%2F本", "u%41", "plain", "é", "\ufffd%41"})
+				if !no.trigger(val, "", nil, nil) {
+					k := len(h.urls) - 1
+					st := 1 + rr.N(2)
+					h.Set(k, st, val)
+					v, _ := parseWith(defaultCfg.Parser, base, in)
+					applySetter(v, st, val)
+					if getters(h.urls[k]) != getters(v) {
+						orc.Fail("C16", "not-neutral:"+no.name, fmt.Sprintf("option changed the result of %s(%s), a value that does not contain its trigger", setterNames[st], q(val)), tokOf())
+					}
+				}
 			}
 		}
 		if rr.P(50) {
@@ -692,10 +713,19 @@ func streamC17(r *Rand, n int, o *Out) {
 	for i := 0; i < n; i++ {
 		rr := r.Fork()
 		h := &Hist{}
+		// opaque paths with trailing spaces next to empty / trivial queries and fragments (where stripping and the list write-through meet)
+		opaqueIn := func() string {
+			return rr.Pick([]string{"sc:", "data:", "mailto:", "a+b:"}) + rr.Pick(segPool) + rr.Pick([]string{" ", "  ", "", " \t"}) +
+				rr.Pick([]string{"?", "?&", "?&&", "?#", "#", "?&#f", "", "?a=1", "?=", "? ", "?a#"})
+		}
 		switch i % 4 {
 		case 0:
 			p := []*Prof{profWhatWg, profWhatWgSort}[rr.N(2)]
-			checkIdem(h, p, genInput(rr), false)
+			in := genInput(rr)
+			if rr.P(25) {
+				in = opaqueIn()
+			}
+			checkIdem(h, p, in, false)
 		case 1:
 			// composed from the canonicalizer's own options
 			cm := rr.N(96)
@@ -703,6 +733,8 @@ func streamC17(r *Rand, n int, o *Out) {
 			in := genInput(rr)
 			if rr.P(20) {
 				in = rr.Pick(weirdHosts) + genPath(rr)
+			} else if rr.P(25) {
+				in = opaqueIn()
 			}
 			checkIdem(h, p, in, false)
 		default:
